@@ -520,6 +520,10 @@ def call_line(method, sit, fl, outcome, changed):
             f" {b(fl['isGroup'])} | {outcome} {b(changed)}")
 
 
+class Unreachable(Exception):
+    """ the real history of a scenario does not reach its state any more (the code under study changed) """
+
+
 class World:
     """ builds a scenario on demand; keeps it as long as calls leave it untouched (or never, when `fresh`) """
     def __init__(self, fresh=False):
@@ -533,10 +537,13 @@ class World:
             self.builds += 1; self.key = (scenario, role)
             sub = self.cluster.sims[role - 1]
             if sub.fsm.state != st:
-                raise RuntimeError(f'scenario {scenario} role {role}: subject is in {sub.fsm.state.name}, not {st.name}')
+                self.cluster = None
+                raise Unreachable(f'the history does not bring instance {role} to {st.name}: it is in {sub.fsm.state.name}')
             for s in self.cluster.sims:
                 tb = s.take_tracebacks()
-                if tb: raise RuntimeError(f'scenario {scenario}: internal error while building the history: {tb[0][-600:]}')
+                if tb:
+                    self.cluster = None
+                    raise Unreachable(f'internal error while building the history: {tb[0][-400:]}')
         return self.cluster, self.cluster.sims[role - 1]
 
     def dirty(self): self.cluster = None
@@ -634,7 +641,10 @@ def evaluate(chk, records, stats):
             verdict = rec['verdict'] = 'J:internal-error-logged'
         if verdict != 'J:ok':
             clause = verdict[2:]
-            sig = f"C17:{clause}:{rec['method']}:{rec['label']}:{cause_of(model, ok, rec)}"
+            if clause in ('not-gated', 'not-served-in-documented-state'):
+                sig = f"C17:{clause}:{rec['method']}:{rec['situation']['fsm']}"       # whatever the parameters
+            else:
+                sig = f"C17:{clause}:{rec['method']}:{rec['label']}:{cause_of(model, ok, rec)}"
             what = (f"{rec['method']}{tuple(rec['args'])} on the {'Master' if rec['situation']['isMaster'] else 'non-Master'} instance in "
                     f"{rec['situation']['fsm']} (scenario {rec['scenario']}): {rec['outcome']} {rec['detail']!r}"
                     f"{' with effects ' + str(list(rec['diff'])) + str(rec['emitted'][:3]) if rec['changed'] else ''} -> clause {clause}")
@@ -648,7 +658,19 @@ def evaluate(chk, records, stats):
 def run_matrix(chk, cells, stats, fresh=False):
     world = World(fresh=fresh); records = []
     for scenario, role, method, label, args in cells:
-        records.append(run_cell(world, scenario, role, method, label, args))
+        name = f'history:{scenario}:instance{role}'
+        if stats['histories'].get(name) is False: continue           # unreachable: already reported
+        try:
+            records.append(run_cell(world, scenario, role, method, label, args))
+            if name not in stats['histories']:
+                stats['histories'][name] = True
+                chk.obligations.append((name, True, world.how))
+        except (Unreachable, Hang) as e:
+            # a broken correspondence obligation (the calls of the history are themselves cells of the matrix)
+            if stats['histories'].get(name) is not False:
+                chk.obligations = [o for o in chk.obligations if o[0] != name]
+                chk.obligations.append((name, False, f'{type(e).__name__}: {e}'))
+            stats['histories'][name] = False; stats['cells_skipped'] += 1
     stats['histories_built'] += world.builds
     return evaluate(chk, records, stats)
 
@@ -665,7 +687,7 @@ def load_corpus():
 
 def new_stats():
     return {'evaluations': 0, 'outcomes': {}, 'by_scenario': {}, 'by_label': {}, 'model_kinds': {}, 'with_effect': 0,
-            'nontrivial': set(), 'rejected': 0, 'histories_built': 0}
+            'nontrivial': set(), 'rejected': 0, 'histories_built': 0, 'histories': {}, 'cells_skipped': 0}
 
 
 def translate(chk):
@@ -716,7 +738,7 @@ def run(chk):
         'samples': samples, 'outcomes': stats['outcomes'], 'cells_by_scenario': stats['by_scenario'],
         'cells_by_parameter_class': stats['by_label'], 'model_prediction_kinds': stats['model_kinds'],
         'calls_with_observable_effect': stats['with_effect'], 'histories_built': stats['histories_built'],
-        'judge_rejections': stats['rejected'], 'traces_validated_against_impl': stats['evaluations'],
+        'judge_rejections': stats['rejected'], 'cells_skipped_history_unreachable': stats['cells_skipped'], 'traces_validated_against_impl': stats['evaluations'],
         'every_call_on_fresh_history': not quick, 'search_stage_run': searched,
         'methods_without_parameter_variants': unknown})
     chk.trusted += [
